@@ -24,8 +24,8 @@ func Load(env types.EnvType) {
 	call.CallOverrideFN(env, "reset!", reset_BANG)
 	call.Call(env, future_call)
 	call.Call(env, future_cancel)
-	call.CallOverrideFN(env, "future-cancelled?", func(f *Future) (bool, error) { return f.Cancelled, nil })
-	call.CallOverrideFN(env, "future-done?", func(f *Future) (bool, error) { return f.Done, nil })
+	call.CallOverrideFN(env, "future-cancelled?", func(f *Future) (bool, error) { return f.IsCancelled(), nil })
+	call.CallOverrideFN(env, "future-done?", func(f *Future) (bool, error) { return f.IsDone(), nil })
 	call.CallOverrideFN(env, "future?", func(f MalType) (bool, error) { return Q[*Future](f), nil })
 	call.Call(env, new_future_call)
 }
@@ -118,8 +118,9 @@ type Future struct {
 	ValChan    chan MalType
 	ErrChan    chan error
 	CancelFunc context.CancelFunc
-	Done       bool
-	Cancelled  bool
+	Done       bool // guarded by mu: use IsDone
+	Cancelled  bool // guarded by mu: use IsCancelled
+	mu         sync.Mutex
 
 	Fn     MalFunc
 	Meta   MalType
@@ -139,8 +140,12 @@ func NewFuture(ctx context.Context, fn MalFunc) *Future {
 		Fn:         fn,
 	}
 	go func() {
-		defer func() { f.Done = true }()
 		res, err := Apply(ctx, fn, nil)
+		// mark the future done before the outcome is delivered, so that
+		// future-done? is true as soon as any deref has returned
+		f.mu.Lock()
+		f.Done = true
+		f.mu.Unlock()
 		if err != nil {
 			f.ErrChan <- err
 			return
@@ -151,7 +156,23 @@ func NewFuture(ctx context.Context, fn MalFunc) *Future {
 	return f
 }
 
+// IsDone reports whether the body has finished or the future was cancelled.
+func (f *Future) IsDone() bool {
+	f.mu.Lock()
+	defer f.mu.Unlock()
+	return f.Done
+}
+
+// IsCancelled reports whether the future was cancelled before it finished.
+func (f *Future) IsCancelled() bool {
+	f.mu.Lock()
+	defer f.mu.Unlock()
+	return f.Cancelled
+}
+
 func (f *Future) Cancel() bool {
+	f.mu.Lock()
+	defer f.mu.Unlock()
 	if !f.Done {
 		f.Cancelled = true
 		f.Done = true
